@@ -317,6 +317,7 @@ static void decide(Thread* me, bool me_enabled, int why) {
                 terminal(V_DEADLOCK, "deadlock: no thread can make progress: " + describe_threads());
             }
             Thread& p = S.t[pick];
+            if (getenv("YKMC_DEBUG_SPUR") != nullptr) fprintf(stderr, "forced T%d at %s:%d ; %s\n", pick, p.file, p.line, describe_threads().c_str());
             p.state = T_RUNNABLE;
             p.forced = true;
             p.forced_wseq = S.wseq;
@@ -455,7 +456,8 @@ static void wait_hook(int type, const void* addr, const char* file, int line) {
         decide(me, false, 1);
         me->state = T_RUNNABLE;
     }
-    me->retry_mark = foreign(me);
+    // the retry mark is the start of the next attempt; spin iterations inside an attempt do not move it
+    if (type != 0) me->retry_mark = foreign(me);
 }
 
 static int yield_hook(const char* file, int line) {
